@@ -37,6 +37,9 @@ def rand_name(rnd):
     if k < 0.3:
         return "".join(rnd.choice(ALPHA) for _ in range(rnd.randint(0, 7)))
     pool = "'/ aAZ\\\"\t\néÉ日\U0001F600\u0000​'/''"
+    if k > 0.9:
+        # names that are templates of a string-formatting mechanism
+        return rnd.choice(["Load 100%", "50%% mix", "%s", "%(x)s", "%d'", "{0}", "{}", "{g}/{c}", "a\\'b", "$name", "\\"]) + rnd.choice(["", "", "'", "/"])
     return "".join(rnd.choice(pool) for _ in range(rnd.randint(0, 10)))
 
 
